@@ -86,6 +86,21 @@ func c05New(cfg, t int) c05Queue {
 			return c05SliceG[instKS]{queue.New[instKS](), instEncKS, instDecKS}
 		}
 		return c05LinkedG[instKS]{queue.NewLinked[instKS](instEncKS(t)), instEncKS, instDecKS}
+	case 3:
+		if impl == 0 {
+			return c05SliceG[float64]{queue.New[float64](), nanEncF, nanDecF}
+		}
+		return c05LinkedG[float64]{queue.NewLinked[float64](nanEncF(t)), nanEncF, nanDecF}
+	case 4:
+		if impl == 0 {
+			return c05SliceG[instXY]{queue.New[instXY](), nanEncXY, nanDecXY}
+		}
+		return c05LinkedG[instXY]{queue.NewLinked[instXY](nanEncXY(t)), nanEncXY, nanDecXY}
+	case 5:
+		if impl == 0 {
+			return c05SliceG[any]{queue.New[any](), nanEncAny, nanDecAny}
+		}
+		return c05LinkedG[any]{queue.NewLinked[any](nanEncAny(t)), nanEncAny, nanDecAny}
 	}
 	if impl == 0 {
 		return c05Slice{queue.New[int]()}
@@ -116,7 +131,7 @@ func execC05(in []int64) []int64 {
 	body := func() {
 		r := &R{w: in}
 		cfg, t := r.Int(), r.Int()
-		if cfg < 0 || cfg > 5 {
+		if cfg < 0 || cfg > 11 {
 			cfg = ((cfg % 2) + 2) % 2 // the model answers wire_error; run something deterministic
 		}
 		q := c05New(cfg, t)
@@ -388,6 +403,9 @@ func genC05(g *Gen) {
 		}
 	}
 
+	// 2d. nan: element types whose == is not the identity of values (c05_nan.go)
+	genC05NaN(g)
+
 	// 3. "malformed" use: everything a caller should not do — long runs of
 	// reads and removals on an empty / emptied / cleared queue, extreme values,
 	// searching for the zero value
@@ -420,16 +438,18 @@ func genC05(g *Gen) {
 	}
 }
 
-func c05OpName(op, arg int) string {
+func c05OpName(op, arg int) string { return c05OpNameI(0, op, arg) }
+
+func c05OpNameI(inst, op, arg int) string {
 	switch op {
 	case c05Enqueue:
-		return fmt.Sprintf("Enqueue(%d)", arg)
+		return fmt.Sprintf("Enqueue(%s)", nanCodeName(inst, arg))
 	case c05Dequeue:
 		return "Dequeue()"
 	case c05Peek:
 		return "Peek()"
 	case c05Search:
-		return fmt.Sprintf("Search(%d)", arg)
+		return fmt.Sprintf("Search(%s)", nanCodeName(inst, arg))
 	case c05Size:
 		return "Size()"
 	case c05Clear:
@@ -447,15 +467,17 @@ func describeC05(in []int64) string {
 	if impl == 0 {
 		fmt.Fprintf(&sb, "queue.New[%s]()", instName(inst))
 	} else {
-		fmt.Fprintf(&sb, "queue.NewLinked[%s](%d)", instName(inst), in[1])
+		fmt.Fprintf(&sb, "queue.NewLinked[%s](%s)", instName(inst), nanCodeName(inst, int(in[1])))
 	}
-	if inst != 0 {
+	if inst >= 3 {
+		sb.WriteString(" [integers are codes of values, c05_nan.go]")
+	} else if inst != 0 {
 		sb.WriteString(" [elements through the int codec of c05_instances.go]")
 	}
 	rest := in[2:]
 	for i := 0; i+1 < len(rest) && i < 80; i += 2 {
 		sb.WriteString("; ")
-		sb.WriteString(c05OpName(int(rest[i]), int(rest[i+1])))
+		sb.WriteString(c05OpNameI(inst, int(rest[i]), int(rest[i+1])))
 	}
 	if len(rest) > 80 {
 		fmt.Fprintf(&sb, "; ... (%d ops)", len(rest)/2)
@@ -472,6 +494,7 @@ func init() {
 			"exhaustive-deep: every sequence of length 6 and 7 (thorough: 7 and 8) over {Enqueue 1|2, Dequeue, Peek, Clear}; " +
 			"random: length-400 histories in fill / over-drain / churn phases over values 0..5; " +
 			"instances: for T = string and T = struct{K int; S string} (elements through an injective int codec whose strings are built afresh at run time for every use, zero value = 0) and both implementations: every sequence up to length 4 (thorough 5) over the same alphabet, 150 (1500) random length-400 histories each, long structured histories up to 130 elements, and the malformed stream; " +
+			"nan: element types whose == is not the identity of values, T = float64, struct{X, Y float64} and any (integers are codes: NaN and a second NaN-like value are not equal to themselves, -0 is a second value equal to the zero value, []int{1}, []int{2}, map are values of uncomparable dynamic types inside an any; observations canonicalised by NaN payload bits / sign bit / slice content), both implementations, the linked one from an ordinary first element and from a NaN: every sequence up to length 4 (thorough 5) over {Enqueue 1|NaN|-0 (any: []int{1}), Dequeue, Peek, Search 1|NaN|0 (any: map), Size, Clear} and up to length 3 (4) over a second alphabet with the other NaN and the other uncomparable type; nan-random: 120 (1500) length-400 histories per element type over {0,1,2,3,NaN,NaN',-0 or the three uncomparable values}; a case never both stores and searches for values of one uncomparable dynamic type (Go's == itself panics there); " +
 			"large: structured long histories over distinct increasing values for both implementations, Peek/Size/Search observed at several points and a full drain at the end: " +
 			"bulk grow to N in {40,130,300,1030} (thorough also 2050 and, slice queue only, 4000) then remove 3N/4+2, N or N+3; saw-tooth p+1 -> p/4-1 over the powers of two p up to 1024 (thorough 4096; linked queue 2048) with thrashing across each capacity boundary; " +
 			"sliding windows holding 1..4 elements while 130, 300, 1100 (5000) elements pass through; malformed: reads and removals on empty, emptied and cleared queues with extreme values. " +
